@@ -91,10 +91,13 @@ class C04(Prop):
     assumptions = ('result order is compared with the order in which the harness handlers actually produced values (their own log)',
                    'handler results that are lists or Value objects are not generated (outside the quantifier / API ambiguity)',
                    'notify is a generated configuration only; nothing is asserted about *_value_changed')
-    budget = {'quick': (600, 4), 'thorough': (10000, 16)}
+    budget = {'quick': (1200, 4), 'thorough': (10000, 16)}
 
     def setup(self):
         driver.quiet_process()
+
+    def normalize(self, spec):
+        return _number(spec)
 
     def strategy(self, tier):
         e = _ev_strategy(1 if tier == 'quick' else 2)
